@@ -209,6 +209,7 @@ def build_job(seed, idx, sc, vi, var):
                 op["env"] = dict(extra_env)
     jid = "c08-%d-%d.v%d" % (seed, idx, vi)
     return {"id": jid, "root_id": "c08/%d/%d/v%d" % (seed, idx, vi), "hashseed": var["hashseed"], "clock_seed": H(seed, idx, vi) % (1 << 31),
+            "pid_base": 1000 + H(seed, idx, vi, "pid") % 30000,  # process ids and wall-clock time differ between executions, as in real life
             "readdir_seed": var["readdir_seed"], "keep_trace": False, "ops": ops}
 
 
